@@ -4,6 +4,7 @@ From Coq Require Import Strings.Byte.
 From NfpmV Require Import Lib.Bytes Model.Path Model.Content Model.Prepare Model.Payload Spec.C05 Spec.C01 Spec.C04.
 From NfpmV Require Import Proofs.KeyFacts Proofs.PlanFacts Proofs.C05Proofs Proofs.C01Proofs Proofs.C04Proofs Proofs.C04Plan Proofs.C04Parents.
 From NfpmV Require Import Model.Cpio Proofs.CpioProofs Model.Tar Proofs.TarProofs Model.RpmFile Proofs.RpmFileProofs Model.Container Proofs.C10Proofs.
+From NfpmV Require Import Model.TarFields Proofs.TarFieldsProofs.
 Import ListNotations.
 Open Scope list_scope.
 
@@ -158,3 +159,60 @@ Example C04_rpm_example :
               rf_payload := B "payload" |} in
   rpm_reencodes (rpm_encode f) = true /\ hdr_offset f = 136.
 Proof. vm_compute. split; reflexivity. Qed.
+
+(* ---- tar at field level (Model/TarFields.v): what is in a header block, and what a reader makes of it ---- *)
+
+(* every header the writer lays out for a set of fields reads back as those fields: name, mode, owner ids, time, type,
+   link target, magic, owner names, device numbers (any values within the widths of the format) *)
+Theorem C04_tar_header_fields_roundtrip : forall f data,
+  wf_hfields f = true -> fields_of (member_of f data) = Some f.
+Proof. exact fields_roundtrip. Qed.
+Print Assumptions C04_tar_header_fields_roundtrip.
+
+(* PAX records ("<length> key=value\n" with the length counting itself) read back as the list they were written from *)
+Theorem C04_pax_records_roundtrip : forall l,
+  Forall (fun r => consistent r = true) l -> forall f, List.length l < f -> pax_records f (pax_encode l) = Some (map fst l).
+Proof. exact pax_records_roundtrip. Qed.
+Print Assumptions C04_pax_records_roundtrip.
+
+(* a reader's logical member: of a plain member; of a PAX extension member and the member after it (path, linkpath,
+   owner names and time from the records, the records kept); of a GNU long-name member and the member after it *)
+Theorem C04_tar_reader_plain_member : forall f data, wf_hfields f = true -> plain_type (hf_type f) = true ->
+  logical [member_of f data] [] None None =
+  Some [{| lm_name := ustar_name f; lm_type := hf_type f; lm_mode := hf_mode f; lm_uid := hf_uid f; lm_gid := hf_gid f;
+           lm_mtime := hf_mtime f; lm_link := hf_link f; lm_uname := hf_uname f; lm_gname := hf_gname f;
+           lm_size := List.length data; lm_pax := []; lm_data := data |}].
+Proof. exact logical_plain. Qed.
+Print Assumptions C04_tar_reader_plain_member.
+
+Theorem C04_tar_reader_pax_member : forall fx recs f data, wf_hfields fx = true -> hf_type fx = x78 ->
+  Forall (fun r => consistent r = true) recs -> wf_hfields f = true -> plain_type (hf_type f) = true ->
+  let pax := map fst recs in
+  logical [member_of fx (pax_encode recs); member_of f data] [] None None =
+  match (match assoc_str (B_ "mtime") pax with Some v => pax_seconds v | None => Some (hf_mtime f) end) with
+  | Some mt =>
+      Some [{| lm_name := or_else (assoc_str (B_ "path") pax) (ustar_name f); lm_type := hf_type f; lm_mode := hf_mode f;
+               lm_uid := hf_uid f; lm_gid := hf_gid f; lm_mtime := mt;
+               lm_link := or_else (assoc_str (B_ "linkpath") pax) (hf_link f);
+               lm_uname := or_else (assoc_str (B_ "uname") pax) (hf_uname f);
+               lm_gname := or_else (assoc_str (B_ "gname") pax) (hf_gname f);
+               lm_size := List.length data; lm_pax := pax; lm_data := data |}]
+  | None => None
+  end.
+Proof. exact logical_pax. Qed.
+Print Assumptions C04_tar_reader_pax_member.
+
+Theorem C04_tar_reader_gnu_long_name : forall fl name f data, wf_hfields fl = true -> hf_type fl = x4c -> no_nul name = true ->
+  wf_hfields f = true -> plain_type (hf_type f) = true ->
+  logical [member_of fl (name ++ [tnul]); member_of f data] [] None None =
+  Some [{| lm_name := name; lm_type := hf_type f; lm_mode := hf_mode f; lm_uid := hf_uid f; lm_gid := hf_gid f;
+           lm_mtime := hf_mtime f; lm_link := hf_link f; lm_uname := hf_uname f; lm_gname := hf_gname f;
+           lm_size := List.length data; lm_pax := []; lm_data := data |}].
+Proof. exact logical_gnu_longname. Qed.
+Print Assumptions C04_tar_reader_gnu_long_name.
+
+(* what the per-run field-level re-encoding of a real tar stream establishes *)
+Theorem C04_tar_fields_check_sound : forall s, tar_fields_reencode s = true ->
+  exists ms rest, tar_read s = Some (ms, rest) /\ Forall (fun m => exists f, fields_of m = Some f /\ member_of f (tm_data m) = m) ms.
+Proof. exact tar_fields_reencode_sound. Qed.
+Print Assumptions C04_tar_fields_check_sound.
